@@ -16,7 +16,6 @@ import (
 	orderPeerMgr "github.com/meshplus/bitxhub-core/peer-mgr"
 	"github.com/meshplus/bitxhub-model/pb"
 	"github.com/meshplus/bitxhub/pkg/order/etcdraft"
-	raftproto "github.com/meshplus/bitxhub/pkg/order/etcdraft/proto"
 	"pgregory.net/rapid"
 
 	"verifharness/sim"
@@ -106,27 +105,12 @@ func (p *raftPeerMgr) deliver(to uint64, m *pb.Message) error {
 	return nil
 }
 
-// isTxBroadcast reports whether a consensus message carries broadcast transactions.
-func isTxBroadcast(m *pb.Message) bool {
-	rm := &raftproto.RaftMessage{}
-	if err := rm.Unmarshal(m.Data); err != nil {
-		return false
-	}
-	return rm.Type == raftproto.RaftMessage_BROADCAST_TX
-}
-
 func (p *raftPeerMgr) AsyncSend(to orderPeerMgr.KeyType, m *pb.Message) error {
 	id := to.(uint64)
 	if p.net.cut(p.self, id) {
 		return nil // partitioned
 	}
 	act := p.action()
-	if act == 3 && isTxBroadcast(m) && sim.KFOpen("KF-C20-late-tx-broadcast") {
-		// known finding: a transaction broadcast that arrives after its block was committed is admitted by a
-		// follower that never held it and proposed again later; excluded by construction (delivered in time), counted
-		sim.StatsFor("C20").KnownFinding("KF-C20-late-tx-broadcast", "delayed BROADCAST_TX")
-		act = 0
-	}
 	switch act {
 	case 1:
 		return nil // lost on the wire
@@ -308,19 +292,12 @@ func c20RaftProperty(t *rapid.T) {
 	defer removeAll(base)
 	net := &raftNet{nodes: map[uint64]*raftReplica{}, isolated: map[uint64]bool{}}
 	snap := rapid.SampledFrom([]int{3, 5, 20}).Draw(t, "snapshotCount")
-	// one case in three has no crashes: only message faults (a partitioned follower falls behind, the leader compacts
+	// half of the cases have no crashes: only message faults (a partitioned follower falls behind, the leader compacts
 	// its log and ships a snapshot, the follower installs it while its executor may still hold delivered blocks)
 	noCrash := rapid.IntRange(0, 1).Draw(t, "noCrash") == 0
 	forceLC := os.Getenv("C20_LEADER_CRASH") != "" // experiments only: every case is a leader-crash case
 	if forceLC {
 		noCrash, size = false, 3
-	}
-	if sim.KFOpen("KF-C20-snapshot-ahead-of-executor") && !noCrash {
-		// known finding: a local raft snapshot can cover blocks the executor has not executed yet; after a crash
-		// they are never delivered again. It needs a crash, so cases with crashes run with the shipped
-		// snapshot_count (excluded by construction, counted); cases without crashes keep the small counts.
-		sim.StatsFor("C20").KnownFinding("KF-C20-snapshot-ahead-of-executor", fmt.Sprintf("snapshot_count %d replaced by 1000", snap))
-		snap = 1000
 	}
 	batchSize := rapid.IntRange(1, 3).Draw(t, "batchSize")
 	if size == 3 {
@@ -570,8 +547,10 @@ func c20RaftProperty(t *rapid.T) {
 	if crashWithQueued > 0 {
 		cls = append(cls, "raft-crash-with-delivered-unexecuted-blocks")
 	}
-	if noCrash && snap < 1000 {
+	if noCrash {
 		cls = append(cls, fmt.Sprintf("raft-no-crash-snapshot-count-%d", snap))
+	} else {
+		cls = append(cls, fmt.Sprintf("raft-crash-snapshot-count-%d", snap))
 	}
 	if net.partitions > 0 {
 		cls = append(cls, "raft-follower-partitioned")
